@@ -39,8 +39,14 @@ class AutoScale(Unit):
             for i in range(n):
                 for j in range(i, n):
                     H[i][j] = H[j][i] = val()
+            int_dtype = r.random() < 0.3
+            if kind == 1 and k % 6 == 1 and m > 0:
+                # small integer Jacobian entries under large gradient components: every prescaled entry is below one
+                v1 = [r.choice([-1.0, 1.0]) * 2.0 ** r.randint(5, 8) for _ in range(n)]
+                J = [[float(r.choice([0, 1, 1, 2, 3, -1, -2])) for _ in range(n)] for _ in range(m)]
+                int_dtype = True
             cases.append({"kind": kind, "v1": v1, "v2": v2, "H": H, "J": J, "fmt": r.choice(["coo", "csr", "csc"]),
-                          "int_dtype": r.random() < 0.3})
+                          "int_dtype": int_dtype})
         return cases
 
     def impl(self, case):
